@@ -401,9 +401,10 @@ def copy_before_mutate(prog: Program) -> RuleResult:
     mod = prog.module(modname)
     fn = prog.func(modname, "DisjointSet.binary._binary")
     params = func_params(fn)
+    linkers = set(_dset_linkers(prog.cls(modname, "DisjointSet"))) | {"unite"}
     n = 0
     for call in calls_in(fn, nested=False):
-        if isinstance(call.func, ast.Attribute) and call.func.attr in ("unite", "find"):
+        if isinstance(call.func, ast.Attribute) and call.func.attr in linkers | {"find"}:
             target = call.func.value
             if call.func.attr == "find":
                 continue
@@ -649,6 +650,33 @@ def _is_not_leaf(test: ast.AST, pol: bool) -> bool:
 # disjoint sets: the block counter follows the links
 
 
+
+def _dset_linkers(cls: ast.ClassDef) -> Dict[str, str]:
+    """Methods of DisjointSet that link two sets: 'safe' when they look their arguments up with find() first,
+    'raw' when they store into self.parent directly on what they are given (find() itself only compresses)."""
+    out: Dict[str, str] = {}
+    methods = {m.name: m for m in cls.body if isinstance(m, (ast.FunctionDef, ast.AsyncFunctionDef))}
+    changed = True
+    while changed:
+        changed = False
+        for name, m in methods.items():
+            if name in out or name == "find":
+                continue
+            stores = any(
+                isinstance(st, ast.Assign) and any(isinstance(t, ast.Subscript) and dotted(t.value) == "self.parent" for t in st.targets)
+                for st in walk_no_nested(m)
+            )
+            calls_linker = any(
+                isinstance(c, ast.Call) and isinstance(c.func, ast.Attribute) and dotted(c.func.value) == "self" and c.func.attr in out
+                for c in walk_no_nested(m)
+            )
+            if stores or calls_linker:
+                finds = any(isinstance(c, ast.Call) and dotted(c.func) == "self.find" for c in walk_no_nested(m))
+                out[name] = "safe" if finds else "raw"
+                changed = True
+    return out
+
+
 def groups_pairing(prog: Program) -> RuleResult:
     res = RuleResult(
         "GROUPS-PAIRING",
@@ -665,44 +693,91 @@ def groups_pairing(prog: Program) -> RuleResult:
     if fn is None:
         raise AnalysisError("DisjointSet.unite not found")
     counter = _len_counter(cls)
-    n = 0
-    for path in paths(fn.body):
-        if path.end != "return" or not consistent(path.conds):
-            continue
-        links = decs = 0
-        for ev in path.events:
-            if isinstance(ev, ast.Assign):
-                for tgt in ev.targets:
-                    if isinstance(tgt, ast.Subscript) and dotted(tgt.value) == "self.parent":
-                        links += 1
-            if isinstance(ev, ast.AugAssign) and dotted(ev.target) == f"self.{counter}":
-                if isinstance(ev.op, ast.Sub) and isinstance(ev.value, ast.Constant) and ev.value.value == 1:
-                    decs += 1
-                else:
+    linkers = _dset_linkers(cls)
+    methods = {m.name: m for m in cls.body if isinstance(m, (ast.FunctionDef, ast.AsyncFunctionDef))}
+
+    def summarise(meth: ast.AST, depth: int = 0):
+        """set of (links, decrements, returned constant) over the return / fall-through paths of a method"""
+        out = set()
+        for path in paths(meth.body):
+            if path.end == "raise" or not consistent(path.conds):
+                continue
+            links = decs = 0
+            for ev in path.events:
+                if isinstance(ev, ast.Assign):
+                    for tgt in ev.targets:
+                        if isinstance(tgt, ast.Subscript) and dotted(tgt.value) == "self.parent":
+                            links += 1
+                if isinstance(ev, ast.AugAssign) and dotted(ev.target) == f"self.{counter}":
+                    if isinstance(ev.op, ast.Sub) and isinstance(ev.value, ast.Constant) and ev.value.value == 1:
+                        decs += 1
+                    else:
+                        decs += 99
+                if isinstance(ev, ast.Assign) and any(dotted(t) == f"self.{counter}" for t in ev.targets):
                     decs += 99
-            if isinstance(ev, ast.Assign) and any(dotted(t) == f"self.{counter}" for t in ev.targets):
-                decs += 99
-        ret = path.events[-1]
-        rv = ret.value.value if isinstance(ret, ast.Return) and isinstance(ret.value, ast.Constant) else None
+                for c in ast.walk(ev) if not isinstance(ev, (ast.For, ast.While)) else []:
+                    if isinstance(c, ast.Call) and isinstance(c.func, ast.Attribute) and dotted(c.func.value) == "self" and c.func.attr in linkers and c.func.attr != meth.name and depth < 3:
+                        sub = summarise(methods[c.func.attr], depth + 1)
+                        if len({(l, d) for l, d, _r, _p in sub}) != 1:
+                            decs += 99
+                        else:
+                            l, d = next(iter({(l, d) for l, d, _r, _p in sub}))
+                            links += l
+                            decs += d
+            last = path.events[-1] if path.events else None
+            rv = last.value.value if isinstance(last, ast.Return) and isinstance(last.value, ast.Constant) else ("<expr>" if isinstance(last, ast.Return) and last.value is not None else None)
+            out.add((links, decs, rv, path))
+        return out
+
+    n = 0
+    for links, decs, rv, path in summarise(fn):
+        last = path.events[-1] if path.events else fn
         n += 1
         conds = " and ".join(("" if p else "not ") + short(t, 40) for t, p in path.conds) or "always"
         construct = f"{modname}:DisjointSet.unite/path[{conds}]"
         want_decs, want_rv = (1, True) if links else (0, False)
         if links > 1:
-            res.fail(construct, f"{links} links on one path", mod, ret)
+            res.fail(construct, f"{links} links on one path", mod, last)
         elif decs != want_decs:
             res.fail(
                 construct,
                 f"this path {'links two sets' if links else 'links nothing'} but changes the block counter "
                 f"`self.{counter}` {decs if decs < 99 else 'in an unrecognised way'} time(s) (expected {want_decs}): len() drifts from the number of blocks",
                 mod,
-                ret,
+                last,
             )
         elif rv is not want_rv:
-            res.fail(construct, f"this path {'links' if links else 'does not link'} but returns `{short(ret.value)}`", mod, ret)
+            res.fail(construct, f"this path {'links' if links else 'does not link'} but returns `{rv}`", mod, last)
         else:
             res.ok(construct, f"links={links}, counter decrements={decs}, returns {rv}")
-    if n < 3:
+    # a raw linker is only ever given representatives: results of find() on the same object, in the same function
+    for mod2, qual2, caller in prog.functions():
+        for call in walk_no_nested(caller):
+            if not (isinstance(call, ast.Call) and isinstance(call.func, ast.Attribute) and linkers.get(call.func.attr) == "raw"):
+                continue
+            recv = dotted(call.func.value)
+            construct = f"{mod2.name.split('.', 1)[1]}:{qual2}/raw-link[{short(call, 40)}]"
+            bad_args = []
+            for a in call.args:
+                src = a
+                if isinstance(a, ast.Name):
+                    got = reaching(caller, a.id, call)
+                    src = got if got is not None and not isinstance(got, Opaque) else a
+                is_rep = isinstance(src, ast.Call) and isinstance(src.func, ast.Attribute) and src.func.attr == "find" and dotted(src.func.value) == recv
+                if not is_rep:
+                    bad_args.append(short(a))
+            if bad_args:
+                res.fail(
+                    construct,
+                    f"`{short(call, 60)}` links {bad_args} directly: `{call.func.attr}` stores into the parent table without find(), so "
+                    "its arguments must be the current representatives (results of find() on the same object here) - an element that has "
+                    "since been hung under another root is re-parented and its group is orphaned",
+                    mod2,
+                    call,
+                )
+            else:
+                res.ok(construct, "arguments are find() results")
+    if n < 2:
         raise AnalysisError(f"GROUPS-PAIRING: only {n} return paths in unite")
     return res
 
